@@ -249,6 +249,71 @@ class Run:
         self.solver_s += ob.solver_s
         return ob
 
+    def equal_spec(self, name, got, spec_fn, pc=(), timeout_s=120, key=None, split=32, impl_fn=None):
+        """like equal(), but the reference side is given as a function that rebuilds it: when the two sides are not
+        syntactically identical, small-cone equalities (counter arithmetic) are discovered by simulation, proved by the
+        solver and installed as construction-time aliases; the reference is then rebuilt and usually becomes identical
+        to the implementation's term, so the big DAG never reaches the solver"""
+        def mkpairs(exp, g=None):
+            g = got if g is None else g
+            w = T.width(g)
+            return [(T.extract(g, i, min(split, w - i)), T.extract(exp, i, min(split, w - i))) for i in range(0, w, split)]
+        pc_core = tuple((c, v) for c, v in pc if T.support([c])[0] != {'cpu'})
+        ck = ('spec', got, pc_core)
+        if ck in _CONGR_CACHE:
+            ob = Obligation(name)
+            ob.key = key or name
+            ob.n_pairs, ob.n_identical, ob.status, ob.detail = _CONGR_CACHE[ck]
+            return self.add(ob)
+        exp = spec_fn()
+        pairs = mkpairs(exp)
+        if all(g == e for g, e in pairs):
+            return self.equal(name, pairs, pc, timeout_s, key)
+        from . import congr
+        diff = [(g, e) for g, e in pairs if g != e]
+        t0 = time.time()
+        model = congr.simulate_difference(diff, pc)
+        if model is None:
+            def _solve(ps, pcx):
+                r_ = solve_neq(ps, pcx, 30, None, False)
+                return r_[0], r_[1]
+            if os.environ.get('VERIF_DEBUG'):
+                print('DEBUG equal_spec %s: not identical (%d/%d), simulate took %.1fs' % (name, sum(1 for g, e in pairs if g == e), len(pairs), time.time() - t0), flush=True)
+            na, sa, nq = congr.discover_aliases(diff, pc_core if len(pc_core) != len(pc) else pc, solve=_solve, both_sides=impl_fn is not None)
+            if os.environ.get('VERIF_DEBUG'):
+                print('DEBUG discovered %d node + %d slice aliases with %d queries, %.1fs' % (len(na), sum(len(v) for v in sa.values()), nq, time.time() - t0), flush=True)
+            if na or sa:
+                T.ALIAS_NODE.update(na)
+                for k, v in sa.items():
+                    T.ALIAS_SLICE.setdefault(k, []).extend(v)
+                got2 = None
+                try:
+                    exp2 = spec_fn()
+                    if impl_fn is not None:
+                        got2 = impl_fn()
+                finally:
+                    T.ALIAS_NODE.clear()
+                    T.ALIAS_SLICE.clear()
+                pairs2 = mkpairs(exp2, got2)
+                STATS['alias_rebuilds'] = STATS.get('alias_rebuilds', 0) + 1
+                if os.environ.get('VERIF_DEBUG'):
+                    print('DEBUG alias rebuild: lemmas=%d+%d queries=%d identical %d/%d  t=%.1fs' % (len(na), sum(len(v) for v in sa.values()), nq,
+                          sum(1 for g, e in pairs2 if g == e), len(pairs2), time.time() - t0), flush=True)
+                if all(g == e for g, e in pairs2):
+                    ob = Obligation(name)
+                    ob.key = key or name
+                    ob.n_pairs = len(pairs)
+                    ob.n_identical = sum(1 for g, e in pairs if g == e)
+                    ob.status = 'unsat'
+                    ob.solver_s = time.time() - t0
+                    ob.detail = 'by %d proved small-cone lemmas + reconstruction' % (len(na) + sum(len(v) for v in sa.values()))
+                    _CONGR_CACHE[ck] = (ob.n_pairs, ob.n_identical, 'unsat', ob.detail + ' (same terms as another arm)')
+                    if len(self.samples) < 6:
+                        self.samples.append({'obligation': name, 'pairs': len(pairs), 'identical': ob.n_identical, 'status': 'unsat', 'how': ob.detail})
+                    return self.add(ob)
+                pairs = pairs2
+        return self.equal(name, pairs, pc, timeout_s, key)
+
     def equal(self, name, pairs, pc=(), timeout_s=120, key=None):
         """obligation: under pc every got == exp. Returns Obligation (status identical/unsat/sat/unknown)"""
         pairs = [(g, e) for g, e in pairs if T.width(g) or T.width(e)]
@@ -318,7 +383,9 @@ class Run:
         self.canaries.extend(tuple(c) for c in d['canaries'])
         self.exec_s += d['exec_s']
         for k, v in d['extra'].items():
-            if isinstance(v, (int, float)) and isinstance(self.extra.get(k, 0), (int, float)):
+            if isinstance(v, list) and isinstance(self.extra.get(k, []), list):
+                self.extra[k] = (self.extra.get(k, []) + v)[:40]
+            elif isinstance(v, (int, float)) and isinstance(self.extra.get(k, 0), (int, float)):
                 self.extra[k] = self.extra.get(k, 0) + v
             else:
                 self.extra.setdefault(k, v)
@@ -398,6 +465,7 @@ def _worker(job):
     T.reset()
     _CONGR_CACHE.clear()
     sub = Run(pid, tier, seed)
+    t_start = time.time()
     try:
         fn(sub, task)
     except Exception as e:
@@ -410,6 +478,10 @@ def _worker(job):
             sub.inconclusive.append('%s in task %r: %s' % (type(e).__name__, task, str(e)[:500]))
             if not isinstance(e, (Unsupported, Inconclusive)):
                 sub.inconclusive.append(traceback.format_exc()[-1500:])
+    dt = time.time() - t_start
+    if dt > 60:
+        sub.extra['slow_tasks'] = ['%r: %.0fs' % (task if not isinstance(task, list) else task[0], dt)]
+        print('SLOW task %r: %.0fs' % (task if not isinstance(task, list) else task[:1], dt), flush=True)
     return sub.export()
 
 
